@@ -435,4 +435,24 @@ def bestRunSpec (z : List Bool) : Option Run → Bool
       (List.range (z.length + 1)).all fun b => (List.range (z.length + 1)).all fun l =>
         !isZeroRun z b l || (decide (l < r.len) || (decide (l = r.len) && decide (r.base ≤ b)))
 
+/-! ### CPython's writer: `str(ipaddress.IPv6Address(ad))` (`_string_from_ip_int` + `_compress_hextets`)
+    — the same leftmost-longest zero run (more than one word) as inet_ntop6, but never an embedded IPv4 form -/
+
+def emitPy (best : Option Run) : List Nat → Nat → List Char
+  | [], _ => []
+  | w :: r, i =>
+    match best with
+    | some b =>
+      if b.base ≤ i ∧ i < b.base + b.len then
+        (if i = b.base then [':'] else []) ++ emitPy best r (i + 1)
+      else (if i ≠ 0 then [':'] else []) ++ hexWord w ++ emitPy best r (i + 1)
+    | none => (if i ≠ 0 then [':'] else []) ++ hexWord w ++ emitPy best r (i + 1)
+
+/-- `str(ipaddress.IPv6Address(bytes(ad)))` -/
+def textV6Py (ad : Bytes) : List Char :=
+  let ws := words16 ad
+  let best := bestRun ws
+  emitPy best ws 0 ++
+    (match best with | some b => if b.base + b.len = 8 then [':'] else [] | none => [])
+
 end MitmVerif.C21
